@@ -54,7 +54,16 @@ def run(oc, tier, seed, model_available, escalate):
         n, k0 = cu.gen_geometry(rng, big=(i % 25 == 0))
         percall = rng.random() < 0.3
         k = rng.randint(1, n - 1) if percall else k0
-        man = cu.manager(algo, n, k0)
+        if i % 7 == 3:
+            # a codec object constructed just now, right after one of the other reedsolo field was constructed and used (the field tables of
+            # reedsolo are module-wide): a freshly constructed object must work whatever was constructed before it
+            with common.quiet():
+                other = cu.eccman().ECCMan(n, k0, algo=(4 if algo != 4 else 3))
+                other.encode(bytes(range(1, min(k0, 5) + 1)))
+                man = cu.eccman().ECCMan(n, k0, algo=algo)
+            oc.count("freshly constructed codec object")
+        else:
+            man = cu.manager(algo, n, k0)
         msg = cu.gen_message(rng, k)
         kw = {"k": k} if percall else {}
         karg = k if percall else 0
